@@ -27,10 +27,14 @@ def benign_table():
     groups = [("hand-written (b01–b19)", "b"), ("agent-written round 1 (aCxx_n; used to drive the rework)", "a"), ("agent-written round 2 (cCxx_n; written after the rework, 'be creative')", "c"),
               ("agent-written round 3 (dCxx_n; 'realistic maintainer changes')", "d"),
               ("agent-written round 4 (eCxx_n; 'what real pull requests look like')", "e"),
-              ("agent-written round 5 (fCxx_n; 'a commit in this project's history')", "f")]
+              ("agent-written round 5 (fCxx_n; 'a commit in this project's history')", "f"),
+              ("agent-written round 6 (gCxx_n; 'a different maintainer: different taste, different habits')", "g"),
+              ("agent-written round 7 (hCxx_n; one change each of three prescribed kinds: structure, control-flow idiom, data/arithmetic form)", "h")]
     out = ["| suite | variants | silent on all 20 checks | alarming |", "|---|---|---|---|"]
     for title, pre in groups:
         names = sorted(k for k in m if k.startswith(pre))
+        if not names:
+            continue
         al = [k for k in names if m[k]]
         out.append("| %s | %d | %d | %s |" % (title, len(names), len(names) - len(al), ", ".join(al) or "-"))
     out.append("")
